@@ -110,6 +110,16 @@ def run_one(acc, stepper, calib, wd, idx, family, text, fmt='prophy', patch=None
             missing = [e for e in exts if not os.path.exists(os.path.join(out, 'sch' + e))]
             if missing:
                 acc.violation(PROP, 'success-without-requested-output', witness(missing=missing))
+        elif '{main}' in args:
+            # option cases: every output option that names the output directory has to leave its files there
+            missing = []
+            for opt, es in OUTS + (('--prophy_out', ['.prophy']),):
+                if any(x == opt and y == '{out}' for x, y in zip(args, args[1:])):
+                    missing += [e for e in es if not os.path.exists(os.path.join(out, 'sch' + e))]
+            if any(x == '{out}' for x in args):
+                acc.count('option_cases_with_outputs_checked')
+            if missing:
+                acc.violation(PROP, 'success-without-requested-output', witness(missing=missing))
     elif cls == 'designed' and fmt == 'prophy' and args is None and not isinstance(exc, SystemExit):
         msg = str(exc)
         lines = [ln for ln in msg.split('\n') if ln]
@@ -172,6 +182,54 @@ def option_cases():
         ('options:isar-on-prophy-text', ['--isar', '--python_out', '{out}', '{main}']),
         ('options:sack', ['--sack', '--python_out', '{out}', '{main}']),
     ]
+
+
+def out_combo_cases():
+    """Every combination of two or more output options, in both orders of the pair: each requested output has to be
+    written (the files are looked for after a successful run)."""
+    import itertools
+    opts = ['--python_out', '--cpp_out', '--cpp_full_out', '--prophy_out']
+    out = []
+    for r in (2, 3, 4):
+        for combo in itertools.combinations(opts, r):
+            for order in (combo, tuple(reversed(combo))):
+                a = []
+                for o in order:
+                    a += [o, '{out}']
+                out.append(('options:outs-' + '+'.join(o.strip('-').replace('_out', '') for o in order), a + ['{main}']))
+    return out
+
+
+def random_include_cycles(rng):
+    """Include cycles of 1..4 prophy files in random directories whose include lines are spelled with redundant path
+    components ('./', 'dir/../', through -I): the spelled path of the same file differs on every lap."""
+    out = []
+    for _ in range(2):
+        n = rng.randint(1, 4)
+        dirs = [rng.choice(['', '', 'sub', 'sub/deep', 'other']) for _ in range(n)]
+        names = ['cy%d.prophy' % i for i in range(n)]
+        rel = [os.path.join(d, nm) if d else nm for d, nm in zip(dirs, names)]
+        files = {}
+        for i in range(n):
+            j = (i + 1) % n
+            target = os.path.relpath(rel[j], dirs[i] or '.')
+            style = rng.randrange(4)
+            if style == 0:
+                target = './' + target
+            elif style == 1:
+                target = ('./' * rng.randint(2, 3)) + target
+            elif style == 2:
+                here = os.path.basename(dirs[i]) if dirs[i] else None
+                target = ('../%s/' % here if here else './') + target
+            files[rel[i]] = '#include "%s"\nstruct C%d { u8 x; };\n' % (target, i)
+        entry = rng.choice(['', './', 'sub/../']) + rel[0]
+        if entry.startswith('sub/') and 'sub' not in ''.join(dirs):
+            entry = rel[0]
+        main = '#include "%s"\nstruct T { u8 t; };\n' % entry
+        out.append(('include-cycle:%d' % n, main, files))
+    # a file including itself / the main file by another spelling
+    out.append(('include-cycle:self', '#include "./sch.prophy"\nstruct T { u8 t; };\n', {}))
+    return out
 
 
 def include_cases():
@@ -297,7 +355,7 @@ def run_shard(spec):
                 run_one(acc, stepper, calib, wd, 0 if 'python_out' in ' '.join(ex['args']) else
                         (1 if '--cpp_out' in ex['args'] else 2), ex['family'], ex['input'], ex.get('format', 'prophy'),
                         ex.get('patch'), ex.get('files'),
-                        None if not ex['family'].startswith('options') else None)
+                        dict(option_cases() + out_combo_cases()).get(ex['family']))
                 return acc.done()
             rng = random.Random(spec['seed'])
             idx = [0]
@@ -311,7 +369,7 @@ def run_shard(spec):
                      [(n, t, {'fmt': 'isar'}) for n, t in B.ISAR] +
                      [(n, B.PATCH_BASE_ISAR, {'fmt': 'isar', 'patch': p}) for n, p in B.PATCHES] +
                      [(n, t, {'files': f}) for n, t, f in include_cases()] +
-                     [(n, 'struct S { u8 a; };\n', {'args': a}) for n, a in option_cases()])
+                     [(n, 'struct S { u8 a; };\n', {'args': a}) for n, a in option_cases() + out_combo_cases()])
             for k, (fam, text, kw) in enumerate(fixed):
                 if k % spec['of'] == spec['index']:
                     go(fam, text, **kw)
@@ -333,6 +391,8 @@ def run_shard(spec):
                     go(fam, t, fmt='isar')
                 for fam, t, fl in random_isar_includes(rng):
                     go(fam, t, fmt='isar', files=fl)
+                for fam, t, fl in random_include_cycles(rng):
+                    go(fam, t, files=fl)
     finally:
         stepper.close()
     return acc.done()
@@ -343,7 +403,7 @@ def finish(ctx, merged, specs):
         return
     need = ['outcome:ok', 'outcome:designed', 'family:structural', 'family:replace-token', 'family:expression',
             'family:isar-random-cycle', 'family:isar-duplicate-names', 'family:isar-expression', 'family:isar-include-cross-references',
-            'family:options', 'family:include', 'cli_runs', 'positional_diagnostics']
+            'family:options', 'family:include', 'family:include-cycle', 'option_cases_with_outputs_checked', 'cli_runs', 'positional_diagnostics']
     missing = [f for f in need if not merged['counters'].get(f)]
     if missing and not merged['inconclusive']:
         merged['inconclusive'] = 'coverage floor not met: %s' % missing
